@@ -71,7 +71,9 @@ Deep == {3, 22, 41, 48, 50, 46, 56, 68, 70, 74, 78, 84, 91, 98}
 \* quick tier: histories one step deeper for one or two stock nodes per mechanism
 \* (all stock nodes share the generated pickling code) and for everything that
 \* is not a stock dataclass node
-Rep == {1, 3, 7, 16, 19, 22, 25, 26, 28, 32, 34, 38, 39, 40} \cup 41..NCat
+\* (of the round-2 entries: one per class / per way of building)
+Rep == {1, 3, 7, 16, 19, 22, 25, 26, 28, 32, 34, 38, 39, 40} \cup 41..77
+       \cup {78, 79, 84, 91, 94, 98, 101, 104}
 
 Mk(pr, proto, ct, np, d, wrap) ==
     [ta |-> pr[1], tb |-> pr[2], proto |-> proto, cfg |-> CfgTuples[ct], np |-> np, d |-> d,
